@@ -227,6 +227,9 @@ def write_evidence(pid, tier, seed, spec, records, violations, known_hits, incon
     all_stubs = set()
     evaluations = 0
     nontrivial = 0
+    states = 0
+    transitions = 0
+    validated = 0
     solver_s = 0.0
     functions = set()
     queries = 0
@@ -248,6 +251,8 @@ def write_evidence(pid, tier, seed, spec, records, violations, known_hits, incon
                          unwind_rules=[list(x) for x in (u.rules or [])], stubs_applied=len(r.stubs))
                 all_stubs.update(r.stubs)
                 evaluations += r.total
+                states += r.steps
+                transitions += r.vccs[0]
                 queries += 1
                 solver_s += r.solver_s
                 if r.status in ("success", "failed"):
@@ -263,9 +268,15 @@ def write_evidence(pid, tier, seed, spec, records, violations, known_hits, incon
                 s["failed_assertions_of_other_properties"] = sorted(set(cls["other_props"]))[:10]
             if "replay" in rec:
                 s["replay"] = {k: v for k, v in rec["replay"].items() if k != "log"}
+                validated += 1
             samples.append(s)
         else:
             s = r.evidence()
+            if "replay" in rec:
+                s["replay"] = {k: v for k, v in rec["replay"].items() if k != "log"}
+                validated += 1
+            states += r.blocks
+            transitions += r.edges
             evaluations += r.n_queries
             queries += r.n_queries
             solver_s += r.solver_s
@@ -276,6 +287,13 @@ def write_evidence(pid, tier, seed, spec, records, violations, known_hits, incon
         coverage=dict(
             evaluations=evaluations,
             distinct_nontrivial=nontrivial,
+            states=max(states, 1),
+            transitions=max(transitions, 1),
+            traces_validated_against_impl=validated,
+            states_rule=("states = symbolic program points of the unwound programs handed to the solver (CBMC's 'size of program expression', "
+                         "summed over the harnesses that reached it) + MIR basic blocks executed symbolically by engine M; transitions = verification "
+                         "conditions generated by CBMC + successor edges followed by engine M; traces_validated_against_impl = solver counterexamples "
+                         "replayed against the real library in this run (0 when the solver found none)"),
             rule=("evaluations = verification conditions (CBMC properties + SMT queries) decided by the solver in this run; "
                   "distinct_nontrivial = distinct (harness, assertion) pairs whose assertion is tagged with this property, was reachable and "
                   "was proved by the solver, plus SMT obligations proved (unsat on both solvers), plus vacuity witnesses that came back violated"),
